@@ -526,6 +526,78 @@ def check_c04(tier, seed):
                          tier, seed)
 
 
+def check_c10(tier, seed):
+    res = Result("C10", tier, seed)
+    wd = workdir("C10")
+    rnd = random.Random(seed)
+    # (a) fault injection, family G4
+    cases = []
+    for bases in ("G1c", "G1a_1"):
+        out = tlc_run(os.path.join(SPEC, "mc", "MC_Fault.tla"), os.path.join(SPEC, "mc", f"MC_Fault_{bases}.cfg"),
+                      os.path.join(wd, f"mc_{bases}.out"), os.path.join(wd, "md"), workers=8, timeout=3000, xmx="12g")
+        res.add_mc(tlc_summary(out))
+        cases += tlc_lines(out, "CASE ")
+    n_all = len(cases)
+    kinds_all = {}
+    for c in cases:
+        kinds_all[c["kind"] + "->" + c["expect"]["gen"]["res"]] = kinds_all.get(c["kind"] + "->" + c["expect"]["gen"]["res"], 0) + 1
+    if tier == "quick":
+        # stratified: every (fault kind, expected outcome) class is represented
+        by = {}
+        for c in cases:
+            by.setdefault(c["kind"] + c["expect"]["gen"]["res"], []).append(c)
+        cases = []
+        for k in sorted(by):
+            rnd.shuffle(by[k])
+            cases += by[k][:700]
+    recs = [{"case": i, "fam": "G4", "kind": c["kind"], "site": c["site"], "expect": c["expect"],
+             "runs": [{"reg": c["reg"], "settings": c["settings"], "dedup": True, "composites": False, "teq": [], "repeat": 0}]}
+            for i, c in enumerate(cases)]
+    write_ndjson(os.path.join(wd, "cases.ndjson"), recs)
+    harness_run("gen", os.path.join(wd, "cases.ndjson"), os.path.join(wd, "obs.ndjson"), jobs=12)
+    obs = read_ndjson(os.path.join(wd, "obs.ndjson"))
+    for o in obs:
+        if o.get("crash"):
+            res.violations.append((f"C10: harness worker {o['crash']} (process abort / non-termination in the code under test)", recs[o["i"]]))
+    if res.violations:
+        return res.finish()
+    bad_setup = [o for o in obs if o["runs"][0].get("setup") != "ok"]
+    if bad_setup:
+        raise ToolError(f"harness could not set up fault case {bad_setup[0]['case']}: {bad_setup[0]['runs'][0].get('setup')}")
+    verdicts, summ = tv_parallel(os.path.join(SPEC, "tv", "TV_Fault.tla"), os.path.join(SPEC, "tv", "TV_Fault.cfg"),
+                                 os.path.join(wd, "obs.ndjson"), wd, nproc=8, workers=2)
+    res.add_mc(summ)
+    if len(verdicts) != len(recs):
+        raise ToolError(f"TV judged {len(verdicts)} of {len(recs)} fault cases")
+    for v in verdicts:
+        if v["failed"]:
+            res.violations.append((f"C10 predicates failed: {v['failed']} (fault {v['kind']}, expected {v['expect']}, got {v['gen']})", recs[v["case"]]))
+    # (b) fault-free well-formed registries: the generator family pipeline
+    g = gen_pipeline(tier, seed)
+    res.add_mc(g["mc"])
+    res.add_mc(g["tv"])
+    gcases = None
+    for v in g["verdicts"]:
+        mine = [p for p in v["failed"] if p.startswith("C10.")]
+        if mine:
+            if gcases is None:
+                gcases = {c["case"]: c for c in read_ndjson(g["cases_path"])}
+            res.violations.append((f"C10 predicates failed on fault-free input: {mine} (family {v['fam']})", gcases[v["case"]]))
+    res.traces = len(verdicts) + len(g["verdicts"])
+    res.evaluations = res.traces
+    res.nontrivial = sum(1 for v in verdicts if v["expect"] != "ok")
+    res.extra.update({"fault_cases_model_checked": n_all, "fault_classes": kinds_all, "fault_free_cases": len(g["verdicts"])})
+    res.rule = ("MC: every single fault (id mismatch at every entry, mixed fields at every composite/variant, compact/bits path absent, dangling id at every "
+                "parameter/field/variant-field/element/inner position) of every base registry of G1c and G1a depth<=1 with unique paths is run through the generation "
+                "loop, the de-duplication model and path resolution with the invariant 'documented kind of the fault class or success, never panic'; TV: a stratified "
+                "sample (quick) or all (thorough) of these cases is executed by the real crate (generate, ensure_unique_type_paths, resolve_type_path for every id, each under "
+                "catch_unwind in a supervised worker) and TLC compares kind and payload with the specification's evaluation-order result; fault-free part: all cases of the "
+                "generator families; non-trivial = the fault is reached (expected outcome is an error); distinct by (registry, fault site)")
+    res.samples = [{"kind": r["kind"], "site": r["site"], "expect": r["expect"]["gen"], "registry": r["runs"][0]["reg"][:2]} for r in recs[:: max(1, len(recs) // 3)][:3]]
+    res.assumptions = ["TLC and CommunityModules", "harness projection", "ScaleInfo.tla (E0)"]
+    return res.finish()
+
+
 # ------------------------------------------------------------------------------------------
 # C15 formatter
 
@@ -601,7 +673,7 @@ def check_e0_cmd(tier, seed):
     return 0
 
 
-CHECKS = {"C15": check_c15, "E0": check_e0_cmd, "C01": check_c01, "C02": check_c02, "C03": check_c03, "C04": check_c04}
+CHECKS = {"C15": check_c15, "E0": check_e0_cmd, "C01": check_c01, "C02": check_c02, "C03": check_c03, "C04": check_c04, "C10": check_c10}
 
 
 def selfcheck():
